@@ -167,6 +167,8 @@ type Stats struct {
 	FallbackDur time.Duration
 	Restarts    int
 	ByBackend   map[string]int
+	ModelTime   time.Duration
+	ModelCalls  int
 }
 
 // Solver is an incremental session with one primary solver process (z3 -in)
@@ -189,6 +191,44 @@ type Solver struct {
 	Warnings []string // solver hiccups that were recovered from (process restarted, query re-decided)
 	NoCvInt  bool
 	cvFails  int
+
+	// variables occurring in the asserted formulas (only those need get-value;
+	// every other variable is unconstrained and reported as 0)
+	visited   map[int]bool
+	usedVars  map[string]bool
+	frameUndo [][]undoVar
+}
+
+type undoVar struct {
+	termID int
+	name   string
+}
+
+func (s *Solver) noteVars(t *Term) {
+	if s.visited == nil {
+		s.visited = map[int]bool{}
+		s.usedVars = map[string]bool{}
+	}
+	top := len(s.frameUndo) - 1
+	var walk func(t *Term)
+	walk = func(t *Term) {
+		if s.visited[t.ID] {
+			return
+		}
+		s.visited[t.ID] = true
+		u := undoVar{termID: t.ID}
+		if t.K == KVar && !s.usedVars[t.Name] {
+			s.usedVars[t.Name] = true
+			u.name = t.Name
+		}
+		if top >= 0 {
+			s.frameUndo[top] = append(s.frameUndo[top], u)
+		}
+		for _, a := range t.Args {
+			walk(a)
+		}
+	}
+	walk(t)
 }
 
 // sproc is one live solver process mirroring the assertion stack.
@@ -262,7 +302,9 @@ func (s *Solver) spawn(name string) *sproc {
 	var cmd *exec.Cmd
 	switch name {
 	case "z3":
-		cmd = exec.Command("z3", "-in", fmt.Sprintf("-t:%d", s.TimeoutMs))
+		// z3 5.1 (z3-new): its get-value is ~50x faster than 4.8.12 on paths with many
+		// definitions; 4.8.12 stays in the one-shot portfolio as an independent back end
+		cmd = exec.Command("z3-new", "-in", fmt.Sprintf("-t:%d", s.TimeoutMs))
 	case "cvc5-int":
 		// incremental mode weakens cvc5's non-linear preprocessing: queries it
 		// does not decide quickly go to the one-shot portfolio instead
@@ -276,6 +318,12 @@ func (s *Solver) spawn(name string) *sproc {
 		panic("cannot start " + name + ": " + err.Error())
 	}
 	p := &sproc{name: name, cmd: cmd, in: in, out: bufio.NewReaderSize(out, 1<<20), log: s.Log}
+	if d := os.Getenv("GOSX_SMTLOG"); d != "" && p.log == nil {
+		os.MkdirAll(d, 0755)
+		if f, err := os.Create(fmt.Sprintf("%s/%s-%d-%d.smt2", d, name, os.Getpid(), time.Now().UnixNano())); err == nil {
+			p.log = f
+		}
+	}
 	p.em = newEmitter(p.send)
 	p.send("(set-option :global-declarations true)")
 	p.send("(set-option :produce-models true)")
@@ -335,6 +383,7 @@ func (s *Solver) restart(p *sproc) {
 
 func (s *Solver) Push() {
 	s.stack = append(s.stack, nil)
+	s.frameUndo = append(s.frameUndo, nil)
 	for _, p := range s.procs() {
 		p.send("(push 1)")
 	}
@@ -342,6 +391,15 @@ func (s *Solver) Push() {
 
 func (s *Solver) Pop() {
 	s.stack = s.stack[:len(s.stack)-1]
+	if n := len(s.frameUndo); n > 0 {
+		for _, u := range s.frameUndo[n-1] {
+			delete(s.visited, u.termID)
+			if u.name != "" {
+				delete(s.usedVars, u.name)
+			}
+		}
+		s.frameUndo = s.frameUndo[:n-1]
+	}
 	for _, p := range s.procs() {
 		p.send("(pop 1)")
 	}
@@ -356,7 +414,7 @@ func (s *Solver) PopTo(d int) {
 		s.Pop()
 	}
 	for _, p := range s.procs() {
-		if p.sent > 400000 {
+		if p.sent > 40000 {
 			s.restart(p)
 		}
 	}
@@ -368,6 +426,7 @@ func (s *Solver) Assert(t *Term) {
 	}
 	top := len(s.stack) - 1
 	s.stack[top] = append(s.stack[top], t)
+	s.noteVars(t)
 	for _, p := range s.procs() {
 		p.em.define(s.C, t)
 		p.send("(assert " + ref(t) + ")")
@@ -552,6 +611,8 @@ func (s *Solver) CheckWith(t *Term, vars []*Term) (Result, map[string]*big.Int) 
 
 // Model returns values for vars after a Sat answer (from Check or CheckWith).
 func (s *Solver) Model(vars []*Term) (map[string]*big.Int, error) {
+	t0 := time.Now()
+	defer func() { s.Stats.ModelTime += time.Since(t0); s.Stats.ModelCalls++ }()
 	res := map[string]*big.Int{}
 	if len(vars) == 0 {
 		return res, nil
@@ -577,6 +638,16 @@ func (s *Solver) Model(vars []*Term) (map[string]*big.Int, error) {
 	if s.last == nil {
 		return nil, fmt.Errorf("no model available")
 	}
+	// unconstrained variables need no query
+	var ask []*Term
+	for _, v := range vars {
+		if v.K == KVar && !s.usedVars[v.Name] {
+			res[v.Name] = new(big.Int)
+			continue
+		}
+		ask = append(ask, v)
+	}
+	vars = ask
 	for i := 0; i < len(vars); i += 200 {
 		j := i + 200
 		if j > len(vars) {
@@ -610,7 +681,7 @@ var traceOn = os.Getenv("GOSX_TRACE") != ""
 var fbSem = make(chan struct{}, fbSlots())
 
 func fbSlots() int {
-	n := runtime.NumCPU() / 3
+	n := runtime.NumCPU() / 4
 	if n < 2 {
 		n = 2
 	}
@@ -652,7 +723,7 @@ func (s *Solver) fallback(asserts []*Term, vars []*Term) (Result, map[string]*bi
 	tl := fmt.Sprintf("--tlimit=%d", s.FbTimeout*1000)
 	backends := []backend{
 		{"cvc5-bv-as-int", []string{"cvc5", "--solve-bv-as-int=sum", "--produce-models", tl, bvFile}, false},
-		{"z3-5.1-bv", []string{"z3-new", fmt.Sprintf("-T:%d", s.FbTimeout), bvFile}, false},
+		{"z3-4.8-bv", []string{"z3", fmt.Sprintf("-T:%d", s.FbTimeout), bvFile}, false},
 		{"cvc5-bv", []string{"cvc5", "--produce-models", tl, bvFile}, false},
 	}
 	if is, ok := IntScript(s.C, asserts, allVars); ok {
@@ -835,7 +906,16 @@ func (s *Solver) hardTerm(t *Term) bool {
 	case KMul, KUDiv, KURem, KSDiv, KSRem:
 		if t.W >= 32 {
 			a, b := t.Args[0], t.Args[1]
-			if !(b.K == KConst && isPow2(b.Val)) && !(a.K == KConst && isPow2(a.Val)) {
+			switch {
+			case a.K == KConst && isPow2(a.Val), b.K == KConst && isPow2(b.Val):
+			case t.K == KMul && (a.K == KConst || b.K == KConst) && t.W <= 64:
+				// multiplication by a constant bit-blasts into a few shifted additions
+				if c := constOf(a, b); c.BitLen() > 20 {
+					h = true
+				}
+			case t.K != KMul && b.K == KConst && b.Val.BitLen() <= 12:
+				// division / remainder by a small constant is cheap for the bit-blaster
+			default:
 				h = true
 			}
 		}
@@ -850,6 +930,13 @@ func (s *Solver) hardTerm(t *Term) bool {
 	}
 	s.hardMemo[t.ID] = h
 	return h
+}
+
+func constOf(a, b *Term) *big.Int {
+	if a.K == KConst {
+		return a.Val
+	}
+	return b.Val
 }
 
 func isPow2(v *big.Int) bool {
